@@ -138,7 +138,11 @@ def run_case(ctx, case):
     # oracle self-check on a few faces
     for i in rng.choice(m.n_face, size=min(5, m.n_face), replace=False):
         P = m.ring_pos(int(i))
-        if ref.is_convex_ccw(P, 1e-10) and abs(ref.poly_area_girard(P) - ex[int(i)]) > 1e-11:
+        # Girard's angle sum is ill conditioned for short edges (each angle carries ~1e-16 / edge length); the Van Oosterom fan
+        # used as the reference is not (checked against long-double evaluation)
+        k_ = len(P)
+        min_edge = min(float(ref.angle(P[j], P[(j + 1) % k_])) for j in range(k_))
+        if ref.is_convex_ccw(P, 1e-10) and abs(ref.poly_area_girard(P) - ex[int(i)]) > 1e-11 + 2e-15 * k_ / max(min_edge, 1e-12):
             ctx.harness_error("oracle", RuntimeError("fan and Girard areas disagree: %r vs %r" % (ex[int(i)], ref.poly_area_girard(P))))
             return
     info = face_class(m)
